@@ -110,10 +110,19 @@ def attr_diffs(a, b):
 				if norm(va) != norm(vb):
 					out.append('node %s product %s: get_attribute(%s) = %r vs %r' % (n.index, p, attr, va, vb))
 			for attr in ('inventory_policy', 'demand_source', 'disruption_process'):
+				def resolved(node_):
+					# the object that applies to product p; a node-level None with no product-level attribute of that name resolves to None
+					try:
+						return node_.get_attribute(attr, p)
+					except AttributeError:
+						v_ = getattr(node_, attr)
+						return v_.get(p) if isinstance(v_, dict) else v_
 				try:
-					oa, ob = n.get_attribute(attr, p), m.get_attribute(attr, p)
+					oa, ob = resolved(n), resolved(m)
 				except Exception as e:
 					out.append('get_attribute(%s, %s) raised %s' % (attr, p, err_enum(e))); continue
+				if (oa is None) != (ob is None):
+					out.append('node %s product %s %s: %r vs %r' % (n.index, p, attr, oa, ob)); continue
 				da = {k: v for k, v in (oa.to_dict() if oa is not None else {}).items() if k not in ('node', 'product')}
 				db = {k: v for k, v in (ob.to_dict() if ob is not None else {}).items() if k not in ('node', 'product')}
 				if norm(da) != norm(db):
